@@ -147,6 +147,7 @@ VALUE_SHIMS = {
     'int': core.int_shim,
     'len': core.len_shim,
     'sum': core.sum_shim,
+    'chr': core.chr_shim,
 }
 
 
